@@ -8,7 +8,7 @@ Open Scope N_scope.
 (** the object a command names *)
 Inductive target :=
 | TCluster (i : N) | TBucket (c : N) | TListener (k : lkind) (a : N)
-| TFront (tls : bool) (k : fkey) | TTFront (udp : bool) (c : N) | TCert (a : N) | TNone.
+| THttpFront (tls : bool) (k : fkey) | TTFront (udp : bool) (c : N) | TCert (a : N) | TNone.
 
 Definition target_of (r : request) : target :=
   match r with
@@ -16,7 +16,7 @@ Definition target_of (r : request) : target :=
   | RAddListener k a _ | RUpdateListener k a _ => TListener k a
   | RRemoveListener p a | RActivate p a | RDeactivate p a =>
     match kind_of p with Some k => TListener k a | None => TNone end
-  | RAddFront tls f | RRemoveFront tls f => TFront tls (front_key f)
+  | RAddFront tls f | RRemoveFront tls f => THttpFront tls (front_key f)
   | RAddTFront udp c _ | RRemoveTFront udp c _ => TTFront udp c
   | RAddBackend c _ | RRemoveBackend c _ _ => TBucket c
   | RAddCert a _ | RRemoveCert a _ | RReplaceCert a _ _ => TCert a
@@ -28,7 +28,7 @@ Definition frame (t : target) (s s' : state) : Prop :=
   (forall i, t <> TCluster i -> clusters s' !! i = clusters s !! i) /\
   (forall c, t <> TBucket c -> backends s' !! c = backends s !! c) /\
   (forall k a, t <> TListener k a -> get_l k s' !! a = get_l k s !! a) /\
-  (forall tls k, t <> TFront tls k -> get_f tls s' !! k = get_f tls s !! k) /\
+  (forall tls k, t <> THttpFront tls k -> get_f tls s' !! k = get_f tls s !! k) /\
   (forall udp c, t <> TTFront udp c -> get_t udp s' !! c = get_t udp s !! c) /\
   (forall a, t <> TCert a -> certs s' !! a = certs s !! a).
 
